@@ -20,8 +20,8 @@ EXTENDS Common, Json, IOUtils, TLCExt
 
 Traces == JsonDeserialize(IOEnv.TRACE_FILE)
 
-VARIABLES dig, step, n, granted, last, tid, l
-tvars == <<dig, step, n, granted, last, tid, l>>
+VARIABLES dig, step, n, granted, last, bud, slack, tid, l
+tvars == <<dig, step, n, granted, last, bud, slack, tid, l>>
 
 ASSUME \A t \in 1..Len(Traces) : TLCSet(t, 0)
 
@@ -34,13 +34,15 @@ NoLast == [valid |-> FALSE, cid |-> 0, res |-> <<>>, udig |-> 0]
 
 TInit == /\ tid \in 1..Len(Traces) /\ l = 1
          /\ dig = 0 /\ step = 1 /\ n = 0 /\ granted = 0 /\ last = NoLast
+         /\ bud = Traces[tid].B /\ slack = 0
 
-\* bounds of C04 with the budget rounded up to T.B = <<num, den>> (sound)
+\* bounds of C04 with the configured budget rounded up to bud = <<num, den>> (sound); `bud` is T.B until the
+\* object is re-configured (SetBudget)
 BoundOK(g, k) ==
-    CASE T.bound = "window"  -> g * T.B[2] * T.W <= T.B[1] * k * T.W + k * T.B[2]
-                                                   + T.B[1] * T.W * T.W + T.B[2] * T.W
-      [] T.bound = "density" -> g * T.B[2] <= T.B[1] * k + T.B[2]
-      [] T.bound = "strict"  -> g * T.B[2] <= T.B[1] * k
+    CASE T.bound = "window"  -> g * bud[2] * T.W <= bud[1] * k * T.W + k * bud[2]
+                                                   + bud[1] * T.W * T.W + bud[2] * T.W
+      [] T.bound = "density" -> g * bud[2] <= bud[1] * k + bud[2] + slack
+      [] T.bound = "strict"  -> g * bud[2] <= bud[1] * k + slack
       [] OTHER -> TRUE
 
 InSeq(x, s) == \E k \in DOMAIN s : s[k] = x
@@ -63,7 +65,7 @@ TQuery ==
               (T.twin[step].res = Ev.res /\ T.twin[step].udig = Ev.udig))
     /\ dig' = Ev.dig
     /\ last' = [valid |-> TRUE, cid |-> Ev.cid, res |-> Ev.res, udig |-> Ev.udig]
-    /\ UNCHANGED <<step, n, granted>>
+    /\ UNCHANGED <<step, n, granted, bud, slack>>
 
 TUpdate ==
     /\ IsEvent("Update")
@@ -74,9 +76,20 @@ TUpdate ==
           \A k \in 1..Ev.len : BoundOK(granted + CountUpTo(Ev.q, k), n + k))
     /\ dig' = Ev.dig /\ step' = step + 1
     /\ n' = n + Ev.len /\ granted' = granted + CountUpTo(Ev.q, Ev.len)
-    /\ last' = NoLast
+    /\ last' = NoLast /\ UNCHANGED <<bud, slack>>
 
-TNext == TQuery \/ TUpdate
+\* set_params(budget=...) on a used object: from here on the bound is the one of the NEW budget, counted from
+\* this point.  The window-based managers carry over a non-negative estimate, which can only delay further
+\* labels (the derivation of their bound holds for any such start); the managers that count over the whole
+\* stream may in addition spend what the new budget would have allowed so far and was not spent (`slack`,
+\* in units of 1 / bud[2]).
+TSetBudget ==
+    /\ IsEvent("SetBudget")
+    /\ bud' = Ev.B /\ n' = 0 /\ granted' = 0 /\ last' = NoLast
+    /\ slack' = IF T.bound \in {"density", "strict"} THEN Max2(0, Ev.B[1] * n - granted * Ev.B[2]) ELSE 0
+    /\ UNCHANGED <<dig, step>>
+
+TNext == TQuery \/ TUpdate \/ TSetBudget
 TSpec == TInit /\ [][TNext]_tvars
 
 Progress == TLCSet(tid, IF TLCGet(tid) < l THEN l ELSE TLCGet(tid))
